@@ -410,6 +410,25 @@ fn rewrite_variants(r: &mut Rng, seg: &Seg, base_framing: Framing) -> Vec<(Strin
         e.extend_from_slice(&pkt::mac(r));
         m("ethernet_addresses", &|s| s.eth = e.clone());
     }
+    // ... including addresses that make the whole Ethernet frame read like a raw IP packet of exactly its length:
+    // first byte 0x45..0x4f and bytes 2..3 the frame length (IPv4 version/IHL and total length), or first byte 0x6?
+    // and bytes 4..5 the frame length minus 40 (IPv6 version and payload length)
+    {
+        let len = pkt::frame(seg, Framing::Ethernet).len();
+        let mut e4 = pkt::mac(r).to_vec();
+        e4.extend_from_slice(&pkt::mac(r));
+        e4[0] = 0x45 + r.below(11) as u8;
+        e4[2] = (len >> 8) as u8;
+        e4[3] = len as u8;
+        m("ethernet_addresses", &|s| s.eth = e4.clone());
+        let mut e6 = pkt::mac(r).to_vec();
+        e6.extend_from_slice(&pkt::mac(r));
+        e6[0] = 0x60 | (r.u8() & 0x0f);
+        let pl = len.saturating_sub(40);
+        e6[4] = (pl >> 8) as u8;
+        e6[5] = pl as u8;
+        m("ethernet_addresses", &|s| s.eth = e6.clone());
+    }
     if seg.src.is_v4() {
         let n = 4 * r.urange(1, 5);
         m("ip_options", &|s| s.ip_opts = vec![1u8; n]);
